@@ -23,6 +23,9 @@ type CaseResult struct {
 	Violations   []CaseViolation     `json:"violations,omitempty"`
 	Samples      []any               `json:"samples,omitempty"`
 	Inconclusive []string            `json:"inconclusive,omitempty"`
+	// RestartWorker asks the worker process to exit after reporting this case (e.g. a goroutine of
+	// the code under test is left spinning); the parent continues with a fresh worker.
+	RestartWorker bool `json:"restart_worker,omitempty"`
 }
 
 type CaseViolation struct {
@@ -280,6 +283,10 @@ func runWorker(run *Run, keys []string, o ShardOptions, isolated bool) (bad, why
 				mergeCase(run, m.Case, m.Res)
 				current = ""
 				done++
+			case "bye":
+				// voluntary exit after a reported case: not a failure
+				cmd.Wait()
+				return "", "", "", done
 			case "trip":
 				kill()
 				return m.Case, m.Why, withPos(tailBuf), done
@@ -380,6 +387,10 @@ func shardChild(o ShardOptions, caseFn func(key string, res *CaseResult)) {
 		res := &CaseResult{}
 		caseFn(k, res)
 		emit(shardMsg{T: "done", Case: k, Res: res})
+		if res.RestartWorker {
+			emit(shardMsg{T: "bye", Case: k})
+			os.Exit(0)
+		}
 	}
 	os.Exit(0)
 }
